@@ -88,6 +88,13 @@ func genC04(r *Rng, tier string) []*Case {
 		if r.Chance(12) {
 			l = almostCanonical(r, l)
 		}
+		if r.Chance(10) && len(l) >= 3 {
+			// a large negative entry cancelled by a later one: the compensated sum must still be exact
+			b := math.Ldexp(1+float64(r.Intn(7)), 55+r.Intn(10))
+			i := r.Intn(len(l) - 1)
+			j := i + 1 + r.Intn(len(l)-1-i)
+			l[i].V, l[j].V = JFloat(-b), JFloat(b)
+		}
 		cs = append(cs, mk("CanonSpan", c04Span{L: l}))
 		// local trust: zero rows at first / middle / last position, with and without p
 		m := Mat{Major: n, Minor: n, Rows: make([][]Ent, n)}
@@ -122,6 +129,12 @@ func genC04(r *Rng, tier string) []*Case {
 		}
 		if r.Chance(12) {
 			v.Ents = almostCanonical(r, v.Ents)
+		}
+		if r.Chance(10) && len(v.Ents) >= 3 {
+			b := math.Ldexp(1+float64(r.Intn(7)), 55+r.Intn(10))
+			i := r.Intn(len(v.Ents) - 1)
+			j := i + 1 + r.Intn(len(v.Ents)-1-i)
+			v.Ents[i].V, v.Ents[j].V = JFloat(-b), JFloat(b)
 		}
 		cs = append(cs, mk("CanonTV", c04TV{V: v}))
 		// power-of-two scaling of every row and of the pre-trust
